@@ -528,7 +528,8 @@ def thread_fine(acc, cfg, gran, bound, part, nparts):
             _fine_account(acc, cfg, gran, start, sw, views, vs, b)
             if len(sw) < bound:
                 frontier.extend(((sw + (q,)), None) for q in b.eligible if q > sw[-1])
-    acc.counters[f"fine-{gran}-points-per-schedule"] = max(acc.counters.get(f"fine-{gran}-points-per-schedule", 0), root.count)
+    if part == 0:
+        acc.counters[f"fine-{gran}-points-per-schedule[{'+'.join(pair)}/{''.join(slots)}]"] = root.count
 
 
 def _fine_account(acc, cfg, gran, start, sw, views, vs, b):
